@@ -164,7 +164,27 @@ def run(ctx):
         if others:
             ctx.notes.append(f"{config}: discrepancies attributed to other properties (not reported here): {others}")
 
+    concurrent = None
+    if ctx.prop in ("C08", "C02"):
+        # the concurrent facet: several threads panicking / matching at once (engine C workloads)
+        from . import engine_c
+        b = engine_c.C10_BUDGET[ctx.tier]
+        ctl, v1 = engine_c.run_sched(ctx, "c10", b["controlled"] // 2)
+        engine_c.report(ctx, v1, ctx.prop, "controlled schedules")
+        st, v2 = engine_c.run_sched(ctx, "c10-stress", b["stress"] // 2,
+                                    ["--threads", "16", "--calls", str(b["stress_calls"])])
+        engine_c.report(ctx, v2, ctx.prop, "real-thread stress")
+        concurrent = {"controlled_executions": ctl["executions"], "distinct_schedules": ctl["distinct_schedules"],
+                      "stress_runs": st["executions"], "controlled_stats": ctl["stats"], "sites": ctl["sites"]}
+        ctx.require(ctl["executions"] > 0 and st["executions"] > 0, "concurrent stage did not run")
+        if ctx.prop == "C08":
+            ctx.require(any(k.startswith("call_mockpanic_") for k in ctl["stats"]),
+                        "no mock-induced panic under a controlled schedule")
+        total_eval += ctl["executions"] + st["executions"]
+        total_distinct += ctl["distinct_schedules"]
+
     ctx.coverage.update({
+        "concurrent_stage": concurrent,
         "evaluations": total_eval,
         "distinct_nontrivial": total_distinct,
         "rule": RULES.get(ctx.prop, RULES["default"]),
